@@ -337,19 +337,42 @@ func runC18Trial(run *ev.Run, sp *c18Spec, seed int64) {
 		return ds
 	}
 	verd := [][]diff{}
-	for i := 0; i < 3; i++ {
-		verd = append(verd, evaluate())
-		if i < 2 {
-			tmu.Lock()
-			for k, v := range adsOriginated {
-				base[k] = v
+	rebase := func() {
+		tmu.Lock()
+		for k, v := range adsOriginated {
+			base[k] = v
+		}
+		tmu.Unlock()
+	}
+	threeLooks := func() {
+		verd = verd[:0]
+		for i := 0; i < 3; i++ {
+			verd = append(verd, evaluate())
+			if i < 2 {
+				rebase()
+				if len(owners) > 0 {
+					waitRounds(1)
+				} else {
+					time.Sleep(c.ServiceAd)
+				}
 			}
-			tmu.Unlock()
+		}
+	}
+	threeLooks()
+	for _, v := range verd {
+		if len(v) != 0 {
+			// not (yet) equal to the ledger at some look: rounds are counted where advertisements are sent, and on a
+			// loaded machine the receivers may lag behind. Six more rounds and three fresh looks decide; waiting
+			// longer can hide a violation but never make one.
+			rebase()
 			if len(owners) > 0 {
-				waitRounds(1)
+				waitRounds(6)
 			} else {
-				time.Sleep(c.ServiceAd)
+				time.Sleep(6 * c.ServiceAd)
 			}
+			run.Count("convergence_verdicts_extended", 1)
+			threeLooks()
+			break
 		}
 	}
 	close(stop)
@@ -417,7 +440,7 @@ func runC18Trial(run *ev.Run, sp *c18Spec, seed int64) {
 				cl = append(cl, c)
 			}
 			sort.Strings(cl)
-			run.Violation("converge:"+strings.Join(cl, "+"), fmt.Sprintf("trial %d: advertisement tables differ from the ledger at 3 evaluations after >= 4 advertisement rounds: %v", sp.Idx, verd[2][0]), map[string]any{"spec": sp, "diffs": verd[2]})
+			run.Violation("converge:"+strings.Join(cl, "+"), fmt.Sprintf("trial %d: advertisement tables differ from the ledger at 3 evaluations after >= 4 advertisement rounds and again at 3 evaluations >= 6 rounds later: %v", sp.Idx, verd[2][0]), map[string]any{"spec": sp, "diffs": verd[2]})
 		}
 	default:
 		run.Inconclusive(fmt.Sprintf("C18 trial %d: convergence verdict unstable", sp.Idx))
@@ -432,7 +455,7 @@ func runC18Trial(run *ev.Run, sp *c18Spec, seed int64) {
 
 func runC18(tier string, args []string) {
 	run := ev.New("C18", tier, "exploration")
-	run.Rule("histories on trees (half of them with per-link reordering of type-2 messages), triangles and longer cycles of 2-6 nodes: seeded open/close/re-open of advertised datagram and stream listeners with unique generation tags, nodes joining late, per-link control delay; every node's advertisement table is polled every ~4 ms; per node and (owner, service): no older generation after a newer one, no generation listed again after an observed absence; after the last event and >= 4 advertisement rounds of every advertising node the tables must equal the ledger (type, tags) at 3 evaluations one round apart. distinct_nontrivial = distinct (shape, reorder, size, #events) histories containing a close on >= 3 nodes or a measured overtake of an advertisement by its withdrawal")
+	run.Rule("histories on trees (half of them with per-link reordering of type-2 messages), triangles and longer cycles of 2-6 nodes: seeded open/close/re-open of advertised datagram and stream listeners with unique generation tags, nodes joining late, per-link control delay; every node's advertisement table is polled every ~4 ms; per node and (owner, service): no older generation after a newer one, no generation listed again after an observed absence; after the last event and >= 4 advertisement rounds of every advertising node the tables must equal the ledger (type, tags) at 3 evaluations one round apart. distinct_nontrivial = distinct (shape, reorder, size, #events) histories containing a close on >= 3 nodes or a measured overtake of an advertisement by its withdrawal; tight churn: listeners opened and closed in quick succession while the advertisement timer runs every 2-4 ms; relay restart: the relay next to the owner restarts (knowing nothing of the owner afterwards, periodic re-advertisement far away) and the owner then closes its services - the far node must drop them")
 	run.Assume("polling can miss transient states, which can only lose violations; type-2 messages get a >= 2 ms per-hop delay (a withdrawal without a matching entry is re-flooded and would otherwise circulate without bound in cyclic topologies)")
 	n := run.Pick(30, 500)
 	rng := rand.New(rand.NewSource(run.Seed*49979687 + 18))
@@ -462,6 +485,14 @@ func runC18(tier string, args []string) {
 		for i := 0; i < run.Pick(3, 12); i++ {
 			cw.Add(1)
 			go func(i int) { defer cw.Done(); runC18Churn(run, i, run.Seed*7000+int64(i)) }(i)
+		}
+		for i := 0; i < run.Pick(3, 12); i++ {
+			cw.Add(1)
+			go func(i int) { defer cw.Done(); runC18Tight(run, i, run.Seed*7100+int64(i)) }(i)
+		}
+		for i := 0; i < run.Pick(4, 24); i++ {
+			cw.Add(1)
+			go func(i int) { defer cw.Done(); runC18RelayRestart(run, i, run.Seed*7200+int64(i)) }(i)
 		}
 		cw.Wait()
 	}
